@@ -63,6 +63,7 @@ Definition accepts (L : lib) (src : bytes -> option header) (key content : bytes
         exists hb proof h, l_dec_hwp L content = Some (hb, proof) /\ l_dec_header L hb = Some h /\
                            l_hdr_hash L h = kh /\ l_proof_check L h proof = Ok tt
       else if Byte.eqb s x03 then
+        length kh = 8%nat /\
         exists hb proof h n, l_dec_hwp L content = Some (hb, proof) /\ l_dec_header L hb = Some h /\
                              key_number kh = Some n /\ h_number h mod two64 = n /\ l_proof_check L h proof = Ok tt
       else if Byte.eqb s x01 then
@@ -81,6 +82,7 @@ Definition genuine (L : lib) (key content : bytes) : Prop :=
         exists hb proof h, l_dec_hwp L content = Some (hb, proof) /\ l_dec_header L hb = Some h /\
                            l_hdr_hash L h = kh /\ l_proof_check L h proof = Ok tt
       else if Byte.eqb s x03 then
+        length kh = 8%nat /\
         exists hb proof h n, l_dec_hwp L content = Some (hb, proof) /\ l_dec_header L hb = Some h /\
                              key_number kh = Some n /\ h_number h mod two64 = n /\ l_proof_check L h proof = Ok tt
       else if Byte.eqb s x01 then
@@ -184,10 +186,10 @@ Proof.
     + split; [discriminate|]. intros [(A & _)|(_ & r' & A & _)]; [contradiction | discriminate].
 Qed.
 
-Lemma accept_iff L v src key content : v_bind v = true -> v_wd v = true ->
+Lemma accept_iff L v src key content : v_bind v = true -> v_wd v = true -> v_numlen v = true ->
   vc L v src key content = Ok tt <-> accepts L src key content.
 Proof.
-  intros Hb Hw. unfold vc, validate_content, accepts.
+  intros Hb Hw Hn. unfold vc, validate_content, accepts.
   destruct key as [|s kh].
   - destruct (v_key v); simpl; split; try discriminate; easy.
   - replace (v_key v && false) with false by (destruct (v_key v); reflexivity).
@@ -204,7 +206,11 @@ Proof.
       - apply beq_false in E. split; [discriminate|].
         intros (hb' & p' & h' & A & B & C & _). inversion A; subst. rewrite DH in B. inversion B; subst. contradiction. }
     destruct (Byte.eqb s x03).
-    { unfold dec_header_with_proof.
+    { rewrite Hn. cbn [andb].
+      destruct (Nat.eqb_spec (length kh) 8) as [LK|LK]; cbn [negb].
+      2:{ split; [discriminate | intros (A & _); contradiction]. }
+      assert (X : forall P : Prop, P <-> (length kh = 8%nat /\ P)) by tauto. rewrite <- X. clear X.
+      unfold dec_header_with_proof.
       destruct (l_dec_hwp L content) as [[hb proof]|] eqn:DW.
       2:{ split; [discriminate | intros (? & ? & ? & ? & A & _); discriminate]. }
       destruct (l_dec_header L hb) as [h|] eqn:DH.
@@ -241,9 +247,9 @@ Proof.
 Qed.
 
 (* soundness in the source-independent form *)
-Lemma accept_sound L v src key content : v_bind v = true -> v_wd v = true ->
+Lemma accept_sound L v src key content : v_bind v = true -> v_wd v = true -> v_numlen v = true ->
   vc L v src key content = Ok tt -> genuine L key content.
-Proof. intros Hb Hw H. eapply accepts_genuine. apply (accept_iff L v src key content Hb Hw). exact H. Qed.
+Proof. intros Hb Hw Hn H. eapply accepts_genuine. apply (accept_iff L v src key content Hb Hw Hn). exact H. Qed.
 
 (* no panic, whatever the source answers and whatever the bytes are *)
 Lemma no_panic L v src key content : v_key v = true -> v_wd v = true ->
@@ -255,7 +261,8 @@ Proof.
   { destruct (l_dec_hwp L content) as [[hb proof]|]; [|discriminate].
     destruct (l_dec_header L hb); [|discriminate]. destruct (negb _); [discriminate | apply Hp]. }
   destruct (Byte.eqb s x03).
-  { destruct (dec_header_with_proof _ _ content) as [[h proof]|]; [|discriminate].
+  { destruct (v_numlen v && negb (Nat.eqb (length kh) 8)); [discriminate|].
+    destruct (dec_header_with_proof _ _ content) as [[h proof]|]; [|discriminate].
     destruct (key_number kh); [|discriminate]. destruct (negb _); [discriminate | apply Hp]. }
   destruct (Byte.eqb s x01).
   { destruct (source_header (l_hdr_hash L) v src kh) as [h| |] eqn:S; cbn [bind]; try discriminate.
@@ -274,7 +281,7 @@ Lemma unbound_rejected L src key content :
   ~ accepts L src key content -> exists e, vc L repaired src key content = Err e.
 Proof.
   intros Hp Hn. destruct (vc L repaired src key content) as [[]|e|] eqn:E.
-  - exfalso. apply Hn. now apply (accept_iff L repaired src key content eq_refl eq_refl).
+  - exfalso. apply Hn. now apply (accept_iff L repaired src key content eq_refl eq_refl eq_refl).
   - now exists e.
   - exfalso. now apply (no_panic L repaired src key content eq_refl eq_refl Hp).
 Qed.
@@ -329,26 +336,26 @@ Proof.
   - apply Hs.
 Qed.
 
-Lemma vcs_loop_sound L v src keys : v_bind v = true -> v_wd v = true ->
+Lemma vcs_loop_sound L v src keys : v_bind v = true -> v_wd v = true -> v_numlen v = true ->
   forall contents i s puts r s' puts',
     vcs_loop L v src keys i contents s puts = (r, s', puts') ->
     store_ok L s -> Forall (gp L) puts -> store_ok L s' /\ Forall (gp L) puts'.
 Proof.
-  intros Hb Hw. unfold vcs_loop.
+  intros Hb Hw Hn. unfold vcs_loop.
   induction contents as [|c rest IH]; intros i s puts r s' puts' H Hs Hp; cbn [validate_contents_loop] in H.
   - inversion H; subst. auto.
   - destruct (idx keys i) as [k|e|]; try (inversion H; subst; auto; fail).
     destruct (store_get s k).
     + eapply IH; eauto.
     + fold_vc L v. destruct (vc L v src k c) as [[]|e|] eqn:V; try (inversion H; subst; auto; fail).
-      assert (G : genuine L k c) by (eapply (accept_sound L v src k c Hb Hw); exact V).
+      assert (G : genuine L k c) by (eapply (accept_sound L v src k c Hb Hw Hn); exact V).
       eapply IH; [exact H | now apply store_ok_put |].
       apply Forall_app. split; [exact Hp | constructor; [exact G | constructor]].
 Qed.
 
-Lemma vcs_sound L v src keys contents s r s' puts : v_bind v = true -> v_wd v = true ->
+Lemma vcs_sound L v src keys contents s r s' puts : v_bind v = true -> v_wd v = true -> v_numlen v = true ->
   vcs L v src keys contents s = (r, s', puts) -> store_ok L s -> store_ok L s' /\ Forall (gp L) puts.
-Proof. intros Hb Hw H Hs. eapply (vcs_loop_sound L v src keys Hb Hw); eauto. Qed.
+Proof. intros Hb Hw Hn H Hs. eapply (vcs_loop_sound L v src keys Hb Hw Hn); eauto. Qed.
 
 Lemma vcs_loop_no_panic L v src keys : v_key v = true -> v_wd v = true ->
   (forall h p, l_proof_check L h p <> Panic) ->
@@ -367,12 +374,12 @@ Proof.
 Qed.
 
 Lemma getter_sound L v {A} sel (decode : bytes -> option A) src lookup s hash r s' p :
-  v_bind v = true -> v_wd v = true ->
+  v_bind v = true -> v_wd v = true -> v_numlen v = true ->
   gett L v sel decode src lookup s hash = (r, s', p) -> store_ok L s ->
   store_ok L s' /\ Forall (gp L) p /\
   (forall a, r = Ok a -> exists c, genuine L (sel :: hash) c /\ decode c = Some a).
 Proof.
-  intros Hb Hw H Hs. unfold gett, getter in H.
+  intros Hb Hw Hn H Hs. unfold gett, getter in H.
   destruct (store_get s (sel :: hash)) as [local|] eqn:G.
   - inversion H; subst. split; [exact Hs|]. split; [constructor|].
     intros a Ha. exists local. split; [now apply Hs|]. destruct (decode local); [now inversion Ha | discriminate].
@@ -380,7 +387,7 @@ Proof.
     2:{ inversion H; subst. repeat split; auto; discriminate. }
     fold_vc L v. destruct (vc L v src (sel :: hash) content) as [[]|e|] eqn:V;
       try (inversion H; subst; repeat split; auto; discriminate).
-    assert (Gn : genuine L (sel :: hash) content) by (eapply (accept_sound L v src _ content Hb Hw); exact V).
+    assert (Gn : genuine L (sel :: hash) content) by (eapply (accept_sound L v src _ content Hb Hw Hn); exact V).
     destruct (decode content) as [a|] eqn:D.
     + inversion H; subst. split; [now apply store_ok_put|]. split; [constructor; [exact Gn | constructor]|].
       intros a' Ha. inversion Ha; subst. now exists content.
@@ -416,35 +423,35 @@ Definition op_obs_ok (L : lib) (o : op) (ob : obs (l_body L) (l_receipts L)) : P
 Definition stp (L : lib) (v : variant) := step (l_body L) (l_receipts L) (l_hdr_hash L) (l_dec_hwp L) (l_dec_header L) (l_proof_check L)
   (l_dec_body L) (l_uncle_hash L) (l_tx_root L) (l_wd_root L) (l_dec_receipts L) (l_receipt_root L) (l_empty_receipt_hash L) v.
 
-Lemma step_sound L v o s ob s' : v_bind v = true -> v_wd v = true ->
+Lemma step_sound L v o s ob s' : v_bind v = true -> v_wd v = true -> v_numlen v = true ->
   stp L v o s = (ob, s') -> store_ok L s -> store_ok L s' /\ op_obs_ok L o ob.
 Proof.
-  intros Hb Hw H Hs. unfold stp, step in H. destruct o as [src keys contents | t src lookup hash].
+  intros Hb Hw Hn H Hs. unfold stp, step in H. destruct o as [src keys contents | t src lookup hash].
   - destruct (validate_contents _ _ _ _ _ _ _ _ _ _ _ _ _ v src keys contents s) as [[r s1] p] eqn:V.
-    inversion H; subst. apply (vcs_sound L v src keys contents s r s' p Hb Hw V) in Hs as (A & B). now split.
+    inversion H; subst. apply (vcs_sound L v src keys contents s r s' p Hb Hw Hn V) in Hs as (A & B). now split.
   - destruct (t =? 0).
     + destruct (get_block_header _ _ _ _ _ _ _ _ _ _ _ _ _ v src lookup s hash) as [[r s1] p] eqn:G.
       inversion H; subst.
-      apply (getter_sound L v x00 (hdr_of L) src lookup s hash r s' p Hb Hw G) in Hs as (A & B & C). split; [exact A|]. now split.
+      apply (getter_sound L v x00 (hdr_of L) src lookup s hash r s' p Hb Hw Hn G) in Hs as (A & B & C). split; [exact A|]. now split.
     + destruct (t =? 1).
       * destruct (get_block_body _ _ _ _ _ _ _ _ _ _ _ _ _ v src lookup s hash) as [[r s1] p] eqn:G.
         inversion H; subst.
-        apply (getter_sound L v x01 (l_dec_body L) src lookup s hash r s' p Hb Hw G) in Hs as (A & B & C). split; [exact A|]. now split.
+        apply (getter_sound L v x01 (l_dec_body L) src lookup s hash r s' p Hb Hw Hn G) in Hs as (A & B & C). split; [exact A|]. now split.
       * destruct (get_receipts _ _ _ _ _ _ _ _ _ _ _ _ _ v src lookup s hash) as [[r s1] p] eqn:G.
         inversion H; subst.
-        apply (getter_sound L v x02 (l_dec_receipts L) src lookup s hash r s' p Hb Hw G) in Hs as (A & B & C). split; [exact A|]. now split.
+        apply (getter_sound L v x02 (l_dec_receipts L) src lookup s hash r s' p Hb Hw Hn G) in Hs as (A & B & C). split; [exact A|]. now split.
 Qed.
 
-Lemma run_sound L v : v_bind v = true -> v_wd v = true ->
+Lemma run_sound L v : v_bind v = true -> v_wd v = true -> v_numlen v = true ->
   forall ops s obs s', run L v ops s = (obs, s') -> store_ok L s ->
     store_ok L s' /\ Forall2 (op_obs_ok L) ops obs.
 Proof.
-  intros Hb Hw. unfold run. induction ops as [|o rest IH]; intros s obs s' H Hs; cbn [run_ops] in H.
+  intros Hb Hw Hn. unfold run. induction ops as [|o rest IH]; intros s obs s' H Hs; cbn [run_ops] in H.
   - inversion H; subst. split; [exact Hs | constructor].
   - destruct (step _ _ _ _ _ _ _ _ _ _ _ _ _ v o s) as [ob s1] eqn:S.
     destruct (run_ops _ _ _ _ _ _ _ _ _ _ _ _ _ v rest s1) as [obs1 s2] eqn:R.
     inversion H; subst.
-    apply (step_sound L v o s ob s1 Hb Hw S) in Hs as (A & B).
+    apply (step_sound L v o s ob s1 Hb Hw Hn S) in Hs as (A & B).
     destruct (IH s1 obs1 s' R A) as (C & D). split; [exact C | now constructor].
 Qed.
 
@@ -485,13 +492,13 @@ Qed.
    under the key of that other block *)
 Lemma lying_source_body_refuted :
   exists src key content,
-    vc wl (mkVariant false true true true) src key content = Ok tt /\ ~ genuine wl key content.
+    vc wl (mkVariant false true true true true) src key content = Ok tt /\ ~ genuine wl key content.
 Proof.
   exists (fun _ => Some wA), [x01; xbb; x02; x05], [x01]. split; [vm_compute; reflexivity | exact w_body_not_genuine].
 Qed.
 Lemma lying_source_receipts_refuted :
   exists src key content,
-    vc wl (mkVariant false true true true) src key content = Ok tt /\ ~ genuine wl key content.
+    vc wl (mkVariant false true true true true) src key content = Ok tt /\ ~ genuine wl key content.
 Proof.
   exists (fun _ => Some wA), [x02; xbb; x02; x05], [x07]. split; [vm_compute; reflexivity | exact w_receipts_not_genuine].
 Qed.
@@ -499,7 +506,7 @@ Qed.
 (* (ii) legacy-encoded body (no withdrawals) accepted for a header that has a withdrawals root; the source is honest *)
 Lemma legacy_body_refuted :
   exists src key content h b,
-    vc wl (mkVariant true false true true) src key content = Ok tt /\
+    vc wl (mkVariant true false true true true) src key content = Ok tt /\
     src (tl key) = Some h /\ l_hdr_hash wl h = tl key /\ l_dec_body wl content = Some b /\
     l_wd_root wl b = None /\ h_wd h <> None /\ ~ body_matches wl b h.
 Proof.
@@ -512,16 +519,16 @@ Qed.
 Lemma nil_withdrawals_hash_refuted :
   exists src key content h,
     src (tl key) = Some h /\ l_hdr_hash wl h = tl key /\
-    vc wl (mkVariant true false true true) src key content = Panic.
+    vc wl (mkVariant true false true true true) src key content = Panic.
 Proof. exists (fun _ => Some wA), [x01; xaa; x01; x07], [x01; x09], wA. repeat split; vm_compute; reflexivity. Qed.
 
 (* empty key: contentKey[0] *)
-Lemma empty_key_refuted : exists src content, vc wl (mkVariant true true false true) src [] content = Panic.
+Lemma empty_key_refuted : exists src content, vc wl (mkVariant true true false true true) src [] content = Panic.
 Proof. exists (fun _ => None), []. vm_compute. reflexivity. Qed.
 
 (* the oracle as found hands back a header that does not hash to the request *)
 Lemma oracle_refuted :
-  exists serve hash h, oracle wl (mkVariant true true true false) serve hash = Some h /\ l_hdr_hash wl h <> hash.
+  exists serve hash h, oracle wl (mkVariant true true true false true) serve hash = Some h /\ l_hdr_hash wl h <> hash.
 Proof.
   exists (fun _ => Some [xaa]), [xbb], (mkHeader [xaa] 0 [] [] [] None). split; [vm_compute; reflexivity|].
   vm_compute. discriminate.
@@ -549,7 +556,7 @@ Lemma repaired_example :
   oracle wl repaired (fun _ => Some [xaa]) [xbb] = None.
 Proof.
   split; [vm_compute; reflexivity|]. split.
-  - apply (accept_sound wl repaired (fun _ => Some wS)); [reflexivity | reflexivity | vm_compute; reflexivity].
+  - apply (accept_sound wl repaired (fun _ => Some wS)); [reflexivity | reflexivity | reflexivity | vm_compute; reflexivity].
   - repeat split; vm_compute; reflexivity.
 Qed.
 
@@ -558,23 +565,24 @@ Lemma header_by_hash_sound L src kh content :
   vc L repaired src (x00 :: kh) content = Ok tt ->
   exists hb proof h, l_dec_hwp L content = Some (hb, proof) /\ l_dec_header L hb = Some h /\
                      l_hdr_hash L h = kh /\ l_proof_check L h proof = Ok tt.
-Proof. intros H. apply (accept_iff L repaired src _ content eq_refl eq_refl) in H. exact H. Qed.
+Proof. intros H. apply (accept_iff L repaired src _ content eq_refl eq_refl eq_refl) in H. exact H. Qed.
 
 Lemma header_by_number_sound L src kh content :
   vc L repaired src (x03 :: kh) content = Ok tt ->
+  length kh = 8%nat /\
   exists hb proof h n, l_dec_hwp L content = Some (hb, proof) /\ l_dec_header L hb = Some h /\
                        key_number kh = Some n /\ h_number h mod two64 = n /\ l_proof_check L h proof = Ok tt.
-Proof. intros H. apply (accept_iff L repaired src _ content eq_refl eq_refl) in H. exact H. Qed.
+Proof. intros H. apply (accept_iff L repaired src _ content eq_refl eq_refl eq_refl) in H. exact H. Qed.
 
 Lemma body_sound L src kh content :
   vc L repaired src (x01 :: kh) content = Ok tt ->
   exists h b, l_hdr_hash L h = kh /\ l_dec_body L content = Some b /\ body_matches L b h.
-Proof. intros H. apply (accept_sound L repaired src _ content eq_refl eq_refl) in H. exact H. Qed.
+Proof. intros H. apply (accept_sound L repaired src _ content eq_refl eq_refl eq_refl) in H. exact H. Qed.
 
 Lemma receipts_sound L src kh content :
   vc L repaired src (x02 :: kh) content = Ok tt ->
   exists h, l_hdr_hash L h = kh /\ receipts_match L content h.
-Proof. intros H. apply (accept_sound L repaired src _ content eq_refl eq_refl) in H. exact H. Qed.
+Proof. intros H. apply (accept_sound L repaired src _ content eq_refl eq_refl eq_refl) in H. exact H. Qed.
 
 Lemma other_selector_rejected L src s kh content :
   Byte.eqb s x00 = false -> Byte.eqb s x01 = false -> Byte.eqb s x02 = false -> Byte.eqb s x03 = false ->
@@ -586,9 +594,47 @@ Qed.
 
 Lemma history_sound L ops obs s' :
   run L repaired ops [] = (obs, s') -> store_ok L s' /\ Forall2 (op_obs_ok L) ops obs.
-Proof. intros H. eapply (run_sound L repaired eq_refl eq_refl); [exact H | apply store_ok_nil]. Qed.
+Proof. intros H. eapply (run_sound L repaired eq_refl eq_refl eq_refl); [exact H | apply store_ok_nil]. Qed.
 
 Lemma offer_no_panic L src keys contents s :
   (forall h p, l_proof_check L h p <> Panic) -> length keys = length contents ->
   fst (fst (vcs L repaired src keys contents s)) <> Panic.
 Proof. intros Hp Hl. apply (vcs_loop_no_panic L repaired src keys eq_refl eq_refl Hp). simpl. lia. Qed.
+
+(* ------------------------------------------------------------------ the key itself: exact length
+   The comparison of header.Hash() (32 bytes) with the WHOLE of contentKey[1:] is what rejects over-long and short
+   keys for the three by-hash selectors; the by-number selector checks len(contentKey) == 9. *)
+Definition key_exact (key : bytes) : Prop :=
+  match key with
+  | [] => False
+  | s :: kh => if Byte.eqb s x03 then length kh = 8%nat else length kh = 32%nat
+  end.
+
+Lemma key_length L src key content :
+  (forall h, length (l_hdr_hash L h) = 32%nat) ->
+  vc L repaired src key content = Ok tt -> key_exact key.
+Proof.
+  intros H32 H. apply (accept_iff L repaired src key content eq_refl eq_refl eq_refl) in H.
+  destruct key as [|s kh]; [exact H|]. cbn in H |- *.
+  destruct (Byte.eqb s x00) eqn:E0.
+  { assert (s = x00) by (now apply Byte.byte_dec_bl). subst. cbn.
+    destruct H as (hb & p & h & _ & _ & A & _). rewrite <- A. apply H32. }
+  destruct (Byte.eqb s x03); [now destruct H|].
+  destruct (Byte.eqb s x01).
+  { destruct H as (h & b & _ & A & _). rewrite <- A. apply H32. }
+  destruct (Byte.eqb s x02); [|contradiction].
+  destruct H as (h & _ & A & _). rewrite <- A. apply H32.
+Qed.
+
+(* as found: bytes after the 8-byte number of a 0x03 key were ignored *)
+Lemma number_key_trailing_refuted :
+  exists src key content,
+    vc wl (mkVariant true true true true false) src key content = Ok tt /\ ~ key_exact key.
+Proof.
+  exists (fun _ => None), [x03; x00; x00; x00; x00; x00; x00; x00; x00; xff], []. split; [vm_compute; reflexivity|].
+  cbn. discriminate.
+Qed.
+Lemma number_key_trailing_repaired :
+  vc wl repaired (fun _ => None) [x03; x00; x00; x00; x00; x00; x00; x00; x00; xff] [] = Err E_KEY /\
+  vc wl repaired (fun _ => None) [x03; x00; x00; x00; x00; x00; x00; x00; x00] [] = Ok tt.
+Proof. split; vm_compute; reflexivity. Qed.
